@@ -1,4 +1,4 @@
-import Varpulis.Lemmas.SaseStack
+import Varpulis.Lemmas.SaseTight
 /-!
 # C05 — pattern state stays within its documented bounds and never panics
 
@@ -111,6 +111,38 @@ theorem stack_bounded_partial (steps : List Step) (cfg : Cfg) (evs : List Ev) (s
   | some k =>
     have := (hri.1.2 k hkc).2
     simp only [hkc] at h2; omega
+
+/-- tight form of the partial statement, with the guard on the *pattern*: if the last step is not `all`, a run never
+holds more than `#steps + max_kleene_events` stack entries (one per step reached, plus the events of its capture).
+Missing part (the known finding): patterns whose last step is `all` — see `trailing_all_stack_counterexample`. -/
+theorem stack_bounded_tight_partial (steps : List Step) (cfg : Cfg) (evs : List Ev) (s : Eng) (outs : List Out)
+    (hm : 1 ≤ cfg.maxRuns) (hk : 1 ≤ cfg.lim.maxEvents) (hlast : lastIsAll steps false = false)
+    (h : runAll (compile steps) cfg {} evs = some (s, outs)) :
+    ∀ v ∈ s.runs :: s.parts.map (·.2), ∀ r ∈ v, r.stack.length ≤ steps.length + cfg.lim.maxEvents := by
+  obtain ⟨s', outs', h', hinv, _⟩ := runAll_ok _ cfg (SaseK.compile_wf steps) hm hk evs {} (engInv_init _ _)
+  rw [h] at h'; cases h'
+  have hst := runAll_tight _ cfg (compile_fwdR steps) ((noTrailingAll_iff steps).mpr hlast) evs {} s outs
+    ⟨by simp, by simp⟩ h
+  intro v hv r hr
+  have hri : RunInv (compile steps) cfg.lim r ∧ TInv (compile steps) r := by
+    rcases List.mem_cons.mp hv with rfl | hv
+    · exact ⟨hinv.1.2 r hr, hst.1 r hr⟩
+    · rcases List.mem_map.mp hv with ⟨p, hp, rfl⟩
+      exact ⟨(hinv.2 p hp).2 r hr, hst.2 p hp r hr⟩
+  have h2 := hri.2
+  have h3 := rank_le_steps steps r.cur
+  simp only [TInv, kcN] at h2
+  cases hkc : r.kc with
+  | none => simp only [hkc] at h2; omega
+  | some k =>
+    have := (hri.1.2 k hkc).2
+    simp only [hkc] at h2; omega
+
+/-- the guard is the intended one: the compiled automaton has no epsilon edge to `Accept` exactly when the pattern's
+last step is not an `all` step (`lastIsAll steps false` = `kleene` flag of the last step, `false` for the empty pattern) —
+this is the guard the C05 judge uses for the KNOWN classification -/
+theorem trailing_guard_iff (steps : List Step) :
+    NoTrailingAll (compile steps) ↔ lastIsAll steps false = false := noTrailingAll_iff steps
 
 /-- the guard is satisfiable: `A -> all B -> C` does not end in `all` -/
 example : NoTrailingAll (compile [{ ty := 0, alias := some 0 }, { ty := 1, alias := some 1, kleene := true, pred := some (.cmpRef 0 .gt 1 0) },
